@@ -52,6 +52,51 @@ theorem gen_grid_in_range (A W x : Rat) (hW : 0 < W) (hlo : A - W ≤ x) (hhi : 
     1 + 1 / 16 ≤ rescaleExact Gen.gridPad Gen.gridSpan A W x ∧ rescaleExact Gen.gridPad Gen.gridSpan A W x ≤ 2 - 1 / 16 :=
   rescale_range_general _ _ gen_grid_constants_ok.1 gen_grid_constants_ok.2.1 gen_grid_constants_ok.2.2 A W x hW hlo hhi
 
+/-- generic range lemma for a shared grid scale `G ≥ W`: the value stays in `(1, 2 - 1/16]`; the lower margin is
+`(pad - 1)/span · W/G` -/
+theorem rescaleG_range_general (pad span : Rat) (hs : 0 < span) (h1 : 0 < (pad - 1) / span) (h2 : (pad + 2) / span ≤ 15 / 16)
+    (A W G x : Rat) (hW : 0 < W) (hG : W ≤ G) (hlo : A - W ≤ x) (hhi : x ≤ A + 2 * W) :
+    1 + (pad - 1) / span * (W / G) ≤ rescaleExactG pad span A W G x ∧ rescaleExactG pad span A W G x ≤ 2 - 1 / 16 := by
+  have hG0 : 0 < G := lt_of_lt_of_le hW hG
+  have key : rescaleExactG pad span A W G x = 1 + ((x - A) / W + pad) / span * (W / G) := by
+    unfold rescaleExactG
+    field_simp
+    ring
+  rw [key]
+  have ht1 : -1 ≤ (x - A) / W := by
+    rw [le_div_iff₀ hW]; linarith
+  have ht2 : (x - A) / W ≤ 2 := by
+    rw [div_le_iff₀ hW]; linarith
+  have hr0 : 0 < W / G := div_pos hW hG0
+  have hr1 : W / G ≤ 1 := by rw [div_le_one hG0]; exact hG
+  have hm1 : (pad - 1) / span ≤ ((x - A) / W + pad) / span := by
+    apply div_le_div_of_nonneg_right _ hs.le; linarith
+  have hm2 : ((x - A) / W + pad) / span ≤ (pad + 2) / span := by
+    apply div_le_div_of_nonneg_right _ hs.le; linarith
+  constructor
+  · have := mul_le_mul_of_nonneg_right hm1 hr0.le
+    linarith
+  · have hnn : 0 ≤ ((x - A) / W + pad) / span := le_trans h1.le hm1
+    have : ((x - A) / W + pad) / span * (W / G) ≤ ((x - A) / W + pad) / span * 1 := mul_le_mul_of_nonneg_left hr1 hnn
+    linarith
+
+/-- **the obligation (shared scale)**: with the translated constants and any grid width `G ≥ W`, every queried position lands in
+`(1, 31/16] ⊂ [1, 2)` in exact arithmetic -/
+theorem gen_gridG_in_range (A W G x : Rat) (hW : 0 < W) (hG : W ≤ G) (hlo : A - W ≤ x) (hhi : x ≤ A + 2 * W) :
+    1 < rescaleExactG Gen.gridPad Gen.gridSpan A W G x ∧ rescaleExactG Gen.gridPad Gen.gridSpan A W G x ≤ 2 - 1 / 16 := by
+  have hc := gen_grid_constants_ok
+  have hpos : 0 < (Gen.gridPad - 1) / Gen.gridSpan := lt_of_lt_of_le (by norm_num) hc.2.1
+  have h := rescaleG_range_general _ _ hc.1 hpos hc.2.2 A W G x hW hG hlo hhi
+  have hG0 : 0 < G := lt_of_lt_of_le hW hG
+  have : 0 < (Gen.gridPad - 1) / Gen.gridSpan * (W / G) := mul_pos hpos (div_pos hW hG0)
+  exact ⟨by linarith [h.1], h.2⟩
+
+/-- **the obligation (similarity)**: the source rescales all active axes with ONE grid width (the largest active extent), so
+that the map to the integer grid is a similarity on the subspace the generators live in and the exact in-sphere test is
+the Euclidean one (`InSphereProofs.inSphereDet_scale`, `inSphereDet_translate`, `inSphereDet_planar`); the per-axis
+rescaling of the pinned tree fails this (`InSphereWitness.anisotropic_scaling_flips_sign`) -/
+theorem gen_grid_shared_scale : Gen.gridSharedScale = true := by decide
+
 /-- the mask keeps exactly the 52 mantissa bits -/
 theorem gen_mantissa_mask : Gen.mantissaMask = 2 ^ 52 - 1 := by decide
 
